@@ -688,7 +688,9 @@ func (e *Engine) concreteInt(t *Term, what string) int {
 	if t.IsConst() {
 		return int(t.SVal())
 	}
+	e.truncEnum = !e.cfg.AllocIsViol // under the allocation monitor a wide range is decided by hugeAlloc, not cut
 	v, ok := e.concretize(t, e.cfg.EnumCap)
+	e.truncEnum = false
 	if !ok {
 		e.tooManyValues(t, what)
 	}
